@@ -140,7 +140,18 @@ def corpus(ctx):
     cyc = [b"asp 1 0 0\n9 2 0 -1 1 0\n9 5 0 0 0\n0\n", b"asp 1 0 0\n9 1 2 1 +\n9 2 0 2 2 1 1\n9 2 1 2 1 0\n9 4 0 1 0 0\n9 5 0 2 1 0\n0\n"] + [theory_cyclic(r) for _ in range(6)]
     # D17: every output mode of lpconvert for these (the text writer is the one that walks the term table)
     inc = [theory_incremental(r) for _ in range(6)] + [b"asp 1 0 0 incremental\n9 0 0 7\n9 4 0 1 0 0\n9 5 0 0 1 0\n0\n9 4 0 1 0 1 2\n9 5 0 0 1 0\n0\n"]
-    return [{"text": t.hex(), "all_flags": 1} for t in cyc + inc] + [{"text": t.hex()} for t in ASPIF + SMODELS + [b"", b"\x00", b"a", b"asp", b"asp 1 0 0\n4 4294967295 x", b"1 0 1 1 1 1 0\n", b"3 _heuristic(a,true,-2147483648)\n", b"1 2 0 0\n0\n1 pppppppppp\",b)\n2 _edge(\"a\\\n0\nB+\n0\nB-\n0\n1\n",
+    # a step that is given up after some directives were already buffered by a converter/writer: every directive kind (and all together) followed by
+    # a truncation, a directive the smodels format cannot express (#assume, #project, theory), a range error, garbage; first step and second step
+    heads = [b"1 0 1 1 0 0", b"1 1 2 1 2 1 2 1 1 3 1 2 2", b"2 0 2 1 1 -2 3", b"4 1 a 1 1", b"4 6 p(1,2) 2 1 -2", b"5 1 2", b"5 2 3", b"7 0 1 -1 3 1 2", b"7 4 2 1 0 0",
+             b"8 0 1 1 1", b"8 1 0 2 1 -2", b"9 0 0 1", None]
+    allh = b"\n".join(h for h in heads if h)
+    tails = [b"1 0 1", b"6 1 1\n0\n", b"3 1 1\n0\n", b"9 1 1 1 x\n9 5 0 1 0\n0\n", b"1 0 1 0 0 0\n0\n", b"8 1\n", b"4 3 ab", b"zz\n0\n"]
+    aborted = []
+    for h in heads:
+        for tl in tails:
+            aborted.append(b"asp 1 0 0\n" + (h or allh) + b"\n" + tl)
+        aborted.append(b"asp 1 0 0 incremental\n" + (h or allh) + b"\n0\n" + (h or allh) + b"\n" + tails[heads.index(h) % len(tails)])
+    return [{"text": t.hex(), "all_flags": 1} for t in cyc + inc + aborted] + [{"text": t.hex()} for t in ASPIF + SMODELS + [b"", b"\x00", b"a", b"asp", b"asp 1 0 0\n4 4294967295 x", b"1 0 1 1 1 1 0\n", b"3 _heuristic(a,true,-2147483648)\n", b"1 2 0 0\n0\n1 pppppppppp\",b)\n2 _edge(\"a\\\n0\nB+\n0\nB-\n0\n1\n",
             b"asp 1 0 0\n1 0 1 1 1 2147483647 1 2 2147483647\n0\n", b"x_2147483648.", b"#minimize{a=2147483648}.", b"asp 1 0 0\n4 99999999999999999999 a 0\n0\n"]]
 
 def generate(ctx):
@@ -235,6 +246,21 @@ def evaluate(ctx, cases):
                 ctx.count()
                 if ci in delivered: ctx.nontrivial(c["text"])
             ctx.sample({"text": bytes.fromhex(cases[0]["text"]).decode("latin-1")[:120]}, 2)
+    # --- the conversion pipelines of lpconvert inside the process with an error handler that returns: whatever a converter/writer had buffered when a
+    #     step is given up must be released (the tool itself exits from its handler, so nothing is unwound there)
+    npipe = {"quick": 400, "thorough": 6000}[ctx.tier]
+    plines, pmeta = [], []
+    for ci, c in enumerate(cases[:npipe]):
+        for fl in (("00", "10", "01", "11") if ctx.tier == "thorough" or c.get("all_flags") else ("10", "%d%d" % (ci % 2, ci // 2 % 2))):
+            plines.append("ap %s %s" % (fl, c["text"] or "-")); pmeta.append((ci, fl))
+    for (ci, fl), i in zip(pmeta, ctx.impl(plines, B=BSIZES[0])):
+        ctx.dist["pipeline " + (i.split(" ")[0].split(":")[0] if isinstance(i, str) else "crash")] += 1
+        if runner.is_oom(i): continue
+        if not isinstance(i, str):
+            err = i[2]
+            leak = "LeakSanitizer" in err or "detected memory leaks" in err
+            ctx.fail("C04:pipeline-leak" if leak else "C04:pipeline-crash", ("conversion pipeline (potassco,text)=%s " % fl) + ("leaks memory" if leak else "crashed / sanitizer report"),
+                     dict(cases[ci], pipe=fl), {"stderr": err[-1500:]})
     # --- lpconvert with every flag set
     nlp = {"quick": 160, "thorough": 1500}[ctx.tier]
     flagsets = [[], ["-p"], ["-f"], ["-t"], ["-p", "-f"], ["-p", "-t"], ["-f", "-t"], ["-p", "-f", "-t"]]
